@@ -7,7 +7,7 @@ LEVEL = "model_checking"
 def run(tier):
     return _common.corpus_property(
         "C16", tier, LEVEL, models=(),
-        need=('empty_final_cluster','scaled_data'),
+        need=('empty_final_cluster','scaled_data','floor_below_bic_threshold'),
         rule="""every completed run: BIC recomputed from the final model by definition (slogdet), parameter count by maximal runs""",
         extra=lambda rep, trs, tier: _metrics.bic_family(rep, tier, {"C16"}),
         nontrivial=lambda t: (t['hdr']['id'],))
